@@ -12,7 +12,7 @@ META = {
         "every path from entry to a mutation of the tree's data passes a completed load of the ROOT at suspend depth 0 (C04.a); the load of each backend "
         "reaches a read of the resource itself, no cached shortcut (C04.b). The documented exemption for destructive operations is encoded semantically: "
         "only for a ROOT receiver and only when the unloaded mutation is a total overwrite of the root's content. For a nested receiver nothing is exempt because "
-        "the subsequent save of the root rewrites the other parts of a stale tree. 'Behaves as one shared plain structure' as such is not decided."
+        "the subsequent save of the root rewrites the other parts of a stale tree. (d) the flag by which a write context decides to load is assigned only in the context's constructor: the context object is shared by all operations and threads of a collection. 'Behaves as one shared plain structure' as such is not decided."
     ),
     "rule": "contexts = class x mutator x {root,nested} x mode; non-trivial = has a user mutation; obligation per entry point and context",
     "trusted_base": ["engine call resolution and CFG", "names _load_from_resource/_load_from_buffer as the backend read protocol"],
